@@ -211,8 +211,33 @@ def check(run: Run) -> None:
     if not ok:
         run.violation("R15.4", mod, seal.qualname, "Assignment(key='HASH', ...)", "the stored HASH is not compute_seal's digest (through at most strip of the quotes)")
 
+    # ---------------------------------------------------------------- R15.6
+    run.rule("R15.6", "the hashed emission distinguishes value kinds: only str values are ever wrapped in quotes (so 404 and \"404\", true and \"true\" cannot hash alike); bool is tested before int", 4)
+    from .c04 import check_bool_before_int
+    from .c18 import check_quote_str_only
+
+    check_quote_str_only(run, "R15.6")
+    check_bool_before_int(run, "R15.6", [("core.emitter", "emit_value")])
+
     # ---------------------------------------------------------------- R15.5
     cli = run.project.mod("cli.main")
+    # the text the CLI writes for a sealed document is the plain emission the hash was computed from: no emit() with options on the seal path
+    from ..resolve import Resolver
+
+    res = Resolver(run.project)
+    seal_reach = [f for f in res.reachable_from(["octave_mcp.cli.main:seal"]) if f.startswith("octave_mcp.cli.main:")]
+    n_emit = 0
+    for fq in sorted(seal_reach):
+        f2 = res.func_by_fqn(fq)
+        for n in walk_no_nested(f2.node):
+            if isinstance(n, ast.Call) and isinstance(n.func, ast.Name) and n.func.id == "emit":
+                n_emit += 1
+                ok = len(n.args) == 1 and not n.keywords
+                run.instance("R15.5", cli.loc(n), f"cli {f2.qualname}: `{norm(n)}` is the plain canonical emission (no format options)", ok=ok)
+                if not ok:
+                    run.violation("R15.5", cli, f2.qualname, n, "`octave seal` writes the sealed document through emit() with format options, while the HASH was computed from the plain emission: a freshly sealed file that contains anything the options change (trailing whitespace in a literal zone, comments) does not verify")
+    if n_emit < 1:
+        raise AnalysisError("cli seal: no emit() call found on the seal path")
     entries = {}
     for q, fn in (("seal", "seal_document"), ("validate", "do_verify_seal")):
         fi = cli.func(q)
